@@ -52,8 +52,13 @@ pub fn run(a: &Args) {
         runs.push((4, 0));                                                   // StopProcess fail point
         for _ in 0..2 { runs.push((7, rng.range(1, total_calls.max(1) as u64) as usize)); }   // the destination PANICS at call k: the request unwinds
         if target.tids.len() >= 2 && !zombie_leader { runs.push((8, 0)); }    // one thread (not the first) is held by another tracer: its attach is refused (EPERM)
+        // a hard error INSIDE the thread-list stage: a crash context whose instruction pointer lies in the execute-only [vsyscall]
+        // page - the window around it cannot be read, the request fails after the threads were suspended
+        if !zombie_leader { runs.push((9, 0)); }
         for (mode, k) in runs {
             let mut w = MinidumpWriter::new(target.pid, target.pid);
+            if mode == 9 { let mut cc = crate::ctx::gen_crash_context(&mut rng, target.pid);
+                cc.inner.context.uc_mcontext.gregs[libc::REG_RIP as usize] = 0xffff_ffff_ff60_0800u64 as i64; cc.inner.context.uc_mcontext.gregs[libc::REG_RSP as usize] = 0x10000; w.set_crash_context(cc); }
             if zombie_leader { w.stop_timeout(std::time::Duration::from_millis(20)); }
             let mut dest = RecDest::new(vec![], 0, false);
             if mode == 1 { dest.fail_at = Some(k); }
@@ -89,7 +94,7 @@ pub fn run(a: &Args) {
             for t in &wt { let idx = target.tids.iter().position(|x| *x == t.tid); let kind = match idx.map(|i| scen.threads[i].kind) { Some(Kind::NullSp) => 3, _ => if t.state == 'Z' || Some(t.tid) == held { 1 } else { 0 } }; line.u(kind).u(0); }
             line.u(outcome).u(3);
             let mut r = Line::bare(); r.z(traced).b(stopped > 0).u(0);
-            out.count(&format!("run.{}", ["clean", "destination_failure", "unreadable_app_memory", "signals", "stop_failpoint", "", "", "destination_panics", "thread_held_by_foreign_tracer"][mode as usize]));
+            out.count(&format!("run.{}", ["clean", "destination_failure", "unreadable_app_memory", "signals", "stop_failpoint", "", "", "destination_panics", "thread_held_by_foreign_tracer", "crash_ip_in_unreadable_vsyscall_page"][mode as usize]));
             if traced != 0 || stopped != 0 {
                 out.notes.push(format!("not released after mode {mode} k {k}: {detail}"));
                 // this process is the tracer of whatever was left attached: release it so that the next runs on this target start clean
